@@ -65,3 +65,44 @@ def spec_canonical(bound, context_args=None, fn_info=None):
     if context_args:
         eff["_memento_context_args"] = context_args
     return canonical_json(spec_encode(eff, fn_info))
+
+
+# ---------------------------------------------------------------- documented result types
+def spec_result_type(v):
+    """Name of the documented result type of a value (docs/serialization.rst, ResultType docstrings)."""
+    import datetime as _dt
+
+    import numpy as np
+    import pandas as pd
+
+    from twosigma.memento.partition import Partition
+
+    if v is None:
+        return "null"
+    if isinstance(v, bool):
+        return "boolean"
+    if isinstance(v, str):
+        return "string"
+    if isinstance(v, (bytes, bytearray)):
+        return "binary"
+    if isinstance(v, (int, float)):
+        return "number"
+    if isinstance(v, _dt.datetime):
+        return "timestamp"
+    if isinstance(v, _dt.date):
+        return "date"
+    if isinstance(v, list):
+        return "list_result"
+    if isinstance(v, dict):
+        return "dictionary"
+    if isinstance(v, pd.Index):
+        return "index"
+    if isinstance(v, pd.Series):
+        return "series"
+    if isinstance(v, pd.DataFrame):
+        return "data_frame"
+    if isinstance(v, np.ndarray):
+        return {"bool": "array_boolean"}.get(str(v.dtype), "array_" + str(v.dtype))
+    if isinstance(v, Partition):
+        return "partition"
+    raise TypeError(type(v))
